@@ -7,6 +7,9 @@ CHECKS = {
    text="Theorems in coq/Properties/C19.v about definitions regenerated from cpXXtime2a.c / cs101_bcr.c / cs101_information_objects.c on every run: ms->CP56->ms identity for every instant 2000..2099 (arithmetic + 36525-day kernel sweep), frame theorems for every setter of CP56/CP32/CP24/CP16/BCR/SCD/SingleEvent over a complete field list (reserved bits included), all 65536 raw values through a Flocq binary32 model, both saturation tails. The generated definitions are executed against the compiled code on every call the run generates; gmtime_r and float hardware are validated against their hand models.",
    note="Trusted: Coq kernel + vm_compute; translator (validated by correspondence); Civil.v for gmtime_r; Flocq for float ops (stdlib axioms classic, functional_extensionality_dep, sig_forall_dec, sig_not_dec via Flocq for the two float theorems); int arithmetic as unbounded Z. PARTIAL inside: boundedness of the middle of the float range is swept natively, not proved.", ref="7.19"),
 }
+CHECKS["C05"] = dict(cat="proof", tech="Coq proof (induction over chunk lists) that a literal receiveMessage model equals an octet-wise reference for every segmentation; differential execution of the extracted model vs both C copies; trace oracle under every cut position",
+   text="coq/Properties/C05.v: feed (the transcription of receiveMessage, up to three socket reads per call) applied to ANY chunking of a byte stream equals the octet-at-a-time reference on the concatenation (so any two segmentations agree), every frame handed on is one delimited APDU, and the receive counter equals the number of deliveries mod 2^15. The model is run call by call against receiveMessage() of cs104_slave.c and cs104_connection.c (white-box harness on a simulated socket) and the whole server is replayed under every cut position with an independent delivery oracle.",
+   note="Trusted: Coq kernel; hand transcription Apci/Reasm.v (validated by correspondence every run); simulated socket mirrors socket_linux.c. Delivery after reassembly is checked by the trace oracle, not by a theorem about handleMessage (the Coq delivery rule abstracts the N(R) check). Client role at trace level is exercised in C03.", ref="7.5")
 NA = {}
 def main():
     checks = []
